@@ -114,6 +114,27 @@ theorem inner_stream (ops : List Op) (hn : NoScopeChange ops) : ∀ (st : St) (s
         apply List.map_congr_left; intro i _
         simp [Function.comp, Nat.add_assoc, Nat.add_comm 1 i]
 
+/-! ## what "cyclic" means: the first round is the input list, period n, nothing but inputs -/
+/-- "input number k modulo the number of inputs": inside the first round the stream is the input list itself … -/
+theorem cyc_lt (vals : List Int) (i : Nat) (hi : i < vals.length) : cyc vals i = vals[i] := by
+  have hne : vals ≠ [] := by intro h; simp [h] at hi
+  simp [cyc, hne, Nat.mod_eq_of_lt hi, hi]
+
+/-- … and it repeats with period `n`: read `k + n` delivers what read `k` delivered -/
+theorem cyc_periodic (vals : List Int) (i : Nat) : cyc vals (i + vals.length) = cyc vals i := by
+  simp [cyc]
+
+theorem cyc_mod (vals : List Int) (i : Nat) : cyc vals i = cyc vals (i % vals.length) := by
+  by_cases h : vals = []
+  · simp [cyc, h]
+  · simp [cyc, h, Nat.mod_mod]
+
+/-- every value delivered is one of the inputs (or the 0 default when there are none) -/
+theorem cyc_mem (vals : List Int) (i : Nat) (h : vals ≠ []) : cyc vals i ∈ vals := by
+  have hl : 0 < vals.length := List.length_pos_iff.mpr h
+  have hm : i % vals.length < vals.length := Nat.mod_lt _ hl
+  simp [cyc, h, hm]
+
 /-- non-vacuity: `? (enter [5,6]) implicit ? implicit leave implicit` on inputs `[7,8]` -/
 example : run [.explicit, .enter [5, 6], .implicit, .explicit, .implicit, .leave, .implicit] (St.init [7, 8])
     = [some (true, 7), none, some (false, 6), some (true, 8), some (false, 5), none, some (true, 7)] := by decide
